@@ -774,6 +774,7 @@ class TimeTableCoordinate(BaseTableCoordinate):
         return cf.TemporalFrame(self.reference_time,
                                 unit=u.s,
                                 axes_names=self.names,
+                                axis_physical_types=self.physical_types,
                                 name="TemporalFrame")
 
     @property
